@@ -29,6 +29,7 @@ package key
 //@   ensures [certificates-only] err == nil ==> (result0 != nil && certBlob(blobid(key)))
 //@   ensures [same-blob] err == nil ==> certid(result0) == blobid(key)
 //@   ensures !certBlob(blobid(key)) ==> err != nil
+//@   ensures [certificate-objects-are-handed-back] (typeof(key) == *ssh.Certificate && certBlob(blobid(key))) ==> (err == nil && result0 == key.(*ssh.Certificate))
 //@ # blob identity of a *ssh.Certificate (as a PublicKey)
 //@ ghost func certid(c *ssh.Certificate) int = blobid(asKey(c))
 
